@@ -109,3 +109,47 @@ Definition pn_full_eqb (a b : pnote) : bool := pn_eqb a b && option_eqb accid_eq
 
 Definition check_to_standard (x : chord * pnote * option pnote) : bool :=
   let '(c, n, r) := x in option_eqb pn_full_eqb (note_to_standard c n) r.
+
+(* Note.to_scale_note(chord) / Melody.to_scale_notes(chord) / Chord.to_scale_notes(): the note's pitch under the chord, notated again
+   by Chord.parse (a scale note when the pitch class belongs to the chord scale, a chromatic note otherwise); a non-relative note
+   only (these entry points take no reference pitch); rests and continuations are copied *)
+Definition to_scale_note (c : chord) (n : pnote) : option pnote :=
+  match to_pitch_abs c n with
+  | Some (Some p) => parse c p
+  | _ => None
+  end.
+
+Definition check_to_scale_note (x : chord * pnote * option pnote) : bool :=
+  let '(c, n, r) := x in option_eqb pn_full_eqb (to_scale_note c n) r.
+
+(* ---- Note.to_chord_note / Note.to_extension_note: a note found (octave apart) among the notes of _chord_notes_calc is written as the
+   chord tone / bass tone of that index, its octave counted from the candidate's; a note carrying an accidental, and every note that is
+   not among the candidates, is copied.  (list.index compares with Note.__eq__: kind, direction, value, octave, mode.) ---- *)
+Definition as_key (n : pnote) : pnote := mkP (pkind n) (pdir n) (pval n) 0 (pmode n) (pacc n).
+
+Definition note_to_tone (k : kind) (l : list (Z * pnote)) (n : pnote) : pnote :=
+  match pacc n with
+  | Some _ => n
+  | None =>
+      match index_of (as_key n) (map (fun e => no_oct (snd e)) l) with
+      | Some i => mkP k (pdir n) (Z.of_nat i) (poct n - poct (snd (nth i l (0, plain KS 0 0)))) (pmode n) (pacc n)
+      | None => n
+      end
+  end.
+
+(* a note with an accidental is returned before the chord's tones are even computed (an invalid figure does not matter to it) *)
+Definition note_to_chord_note (c : chord) (n : pnote) : option pnote :=
+  match pacc n with
+  | Some _ => Some n
+  | None => do l <- chord_notes_calc c (root_figure (fig (cext c))) ;; Some (note_to_tone KC l n)
+  end.
+Definition note_to_extension_note (c : chord) (n : pnote) : option pnote :=
+  match pacc n with
+  | Some _ => Some n
+  | None => do l <- chord_notes_calc c (fig (cext c)) ;; Some (note_to_tone KB l n)
+  end.
+
+Definition check_to_chord_note (x : chord * pnote * option pnote) : bool :=
+  let '(c, n, r) := x in option_eqb pn_full_eqb (note_to_chord_note c n) r.
+Definition check_to_extension_note (x : chord * pnote * option pnote) : bool :=
+  let '(c, n, r) := x in option_eqb pn_full_eqb (note_to_extension_note c n) r.
